@@ -210,6 +210,8 @@ inductive PErr where
   | curve (e : Err)   -- exception escaping from `Bezier3P/4P.flattening`
   | stopIteration     -- `next(pts)` on an exhausted iterator (RuntimeError inside a generator)
   | valueError        -- `distance == 0.0`
+  | indexError        -- NumpyPath2d: `vertices[index]` / unpacking `vertices[index : index + k]` beyond the array
+  | invalidCommand    -- NumpyPath2d: `raise ValueError(f"Invalid command: {cmd}")`
 deriving DecidableEq, Repr
 
 /-- what one pass through the loop body of `_approximate` yields for the element `el` that starts at `s`:
@@ -441,5 +443,164 @@ def Elem.mapV (g : V3 → V3) : Elem V3 → Elem V3
 
 def Path.mapV (g : V3 → V3) (p : Path V3) : Path V3 :=
   ⟨g p.start, p.elems.map (Elem.mapV g), p.hasSub⟩
+
+/-! ## npshapes.NumpyPath2d: the second implementation of `Path` (same command stream, numpy storage)
+
+The class stores `_vertices` (an n×2 array: start point and all control vertices) and `_commands` (int8 codes) and
+walks both with a running `index`.  The model keeps the two arrays as lists; the running index is modelled by the
+list of the rows that are still unread (`vertices[index:]`), so `vertices[index]` is its head and
+`vertices[index : index + k]` its first `k` rows (an `IndexError` / unpacking `ValueError` when fewer are left). -/
+
+structure NpPath (V : Type) where
+  /-- rows of `_vertices` -/
+  vertices : List V
+  /-- `_commands` -/
+  commands : List Nat
+deriving Repr
+
+/-- `NumpyPath2d(path)`: `control_vertices()` (or the start point alone for a path without commands) and
+    `command_codes()`; `proj` is the projection `(v.x, v.y)` -/
+def NpPath.ofPath {V : Type} (proj : V → V) (p : Path V) : NpPath V := ⟨p.vertices.map proj, p.commands⟩
+
+/-- the `for cmd in self._commands` loop of `NumpyPath2d.flattening`: `start`, the unread rows, the unread commands.
+    `LINE_TO` and `MOVE_TO` share one branch: `end_location = vertices[index]; index += 1; yield end_location`;
+    every branch ends with `start = end_location`. -/
+def npLoop {V : Type} (curve3 : V → V → V → Except PErr (List V))
+    (curve4 : V → V → V → V → Except PErr (List V)) : V → List V → List Nat → Except PErr (List V)
+  | _, _, [] => .ok []
+  | start, vs, cmd :: cs =>
+    if cmd = 1 ∨ cmd = 4 then
+      match vs with
+      | [] => .error .indexError
+      | e :: vs' =>
+        match npLoop curve3 curve4 e vs' cs with
+        | .ok l => .ok (e :: l)
+        | .error x => .error x
+    else if cmd = 2 then
+      match vs with
+      | c :: e :: vs' =>
+        match curve3 start c e with
+        | .error x => .error x
+        | .ok [] => .error .stopIteration
+        | .ok (_ :: pts) =>
+          match npLoop curve3 curve4 e vs' cs with
+          | .ok l => .ok (pts ++ l)
+          | .error x => .error x
+      | _ => .error .indexError
+    else if cmd = 3 then
+      match vs with
+      | c1 :: c2 :: e :: vs' =>
+        match curve4 start c1 c2 e with
+        | .error x => .error x
+        | .ok [] => .error .stopIteration
+        | .ok (_ :: pts) =>
+          match npLoop curve3 curve4 e vs' cs with
+          | .ok l => .ok (pts ++ l)
+          | .error x => .error x
+      | _ => .error .indexError
+    else .error .invalidCommand
+
+/-- `NumpyPath2d.flattening` with abstract curve callbacks: nothing without commands, else `vertices[0]` and the loop -/
+def npApprox {V : Type} (curve3 : V → V → V → Except PErr (List V))
+    (curve4 : V → V → V → V → Except PErr (List V)) (np : NpPath V) : Except PErr (List V) :=
+  match np.commands with
+  | [] => .ok []
+  | _ =>
+    match np.vertices with
+    | [] => .error .indexError
+    | s :: vs =>
+      match npLoop curve3 curve4 s vs np.commands with
+      | .ok l => .ok (s :: l)
+      | .error x => .error x
+
+/-- `Vec2(v)`: the projection to the xy-plane -/
+def proj2 (v : V3) : V3 := ⟨v.x, v.y, 0⟩
+
+/-- the curve callbacks of `NumpyPath2d.flattening`: `Vec2.generate(Bezier4P((start, ctrl1, ctrl2, end)).flattening(…))`
+    - no `distance == 0.0` guard here, unlike `Path.flattening` -/
+def npCurve4 (cfg : FlatCfg) (d : Rat) (segments : Nat) (p0 p1 p2 p3 : V3) : Except PErr (List V3) :=
+  match flatCurve4TV cfg d segments p0 p1 p2 p3 with
+  | .ok tv => .ok (tv.map (fun p => proj2 p.2))
+  | .error x => .error (.curve x)
+
+def npCurve3 (cfg : FlatCfg) (d : Rat) (segments : Nat) (p0 p1 p2 : V3) : Except PErr (List V3) :=
+  match flatCurve3TV cfg d segments p0 p1 p2 with
+  | .ok tv => .ok (tv.map (fun p => proj2 p.2))
+  | .error x => .error (.curve x)
+
+/-- `NumpyPath2d.flattening(distance, segments)` -/
+def npFlat (cfg : FlatCfg) (d : Rat) (segments : Nat) (np : NpPath V3) : Except PErr (List V3) :=
+  npApprox (npCurve3 cfg d segments) (npCurve4 cfg d segments) np
+
+/-- `l[a:b]` -/
+def slice {α : Type} (a b : Nat) (l : List α) : List α := (l.drop a).take (b - a)
+
+/-- state of the loop of `NumpyPath2d.sub_paths`: `vtx_start_index, vtx_index, cmd_start_index, cmd_index`, result -/
+structure NpSubSt (V : Type) where
+  vtxStart : Nat
+  vtx : Nat
+  cmdStart : Nat
+  cmd : Nat
+  out : List (NpPath V)
+
+/-- `append_sub_path()`: `vertices[vtx_start_index : vtx_index + 1]`, `commands[cmd_start_index : cmd_index]` -/
+def npAppendSub {V : Type} (np : NpPath V) (st : NpSubSt V) : NpSubSt V :=
+  { st with out := st.out ++ [⟨slice st.vtxStart (st.vtx + 1) np.vertices, slice st.cmdStart st.cmd np.commands⟩] }
+
+def npSubStep {V : Type} (np : NpPath V) (st : NpSubSt V) (cmd : Nat) : NpSubSt V :=
+  let st1 :=
+    if cmd = 1 then { st with vtx := st.vtx + 1 }
+    else if cmd = 2 then { st with vtx := st.vtx + 2 }
+    else if cmd = 3 then { st with vtx := st.vtx + 3 }
+    else if cmd = 4 then
+      let s := npAppendSub np st
+      { s with vtx := s.vtx + 1, vtxStart := s.vtx + 1, cmdStart := s.cmd + 1 }
+    else st
+  { st1 with cmd := st1.cmd + 1 }
+
+/-- `NumpyPath2d.sub_paths()`: `[]` without commands, `[self]` without a `MOVE_TO`, else the index walk; the last
+    sub-path is appended unless the path ends with a `MOVE_TO` -/
+def npSubPaths {V : Type} (np : NpPath V) : List (NpPath V) :=
+  match np.commands with
+  | [] => []
+  | _ =>
+    if np.commands.contains 4 then
+      let st := np.commands.foldl (npSubStep np) ⟨0, 0, 0, 0, []⟩
+      if np.commands.getLast? = some 4 then st.out else (npAppendSub np st).out
+    else [np]
+
+/-- `NumpyPath2d.reverse()` (in place): `np.flip` of both arrays, a trailing `MOVE_TO` and its vertex dropped first -/
+def npReverse {V : Type} (np : NpPath V) : NpPath V :=
+  match np.commands.getLast? with
+  | none => np
+  | some c =>
+    if c = 4 then ⟨np.vertices.dropLast.reverse, np.commands.dropLast.reverse⟩
+    else ⟨np.vertices.reverse, np.commands.reverse⟩
+
+/-- `NumpyPath2d.has_sub_paths`: `CMD_MOVE_TO in self._commands` (computed, not stored) -/
+def NpPath.hasSub {V : Type} (np : NpPath V) : Bool := np.commands.contains 4
+
+/-- `NumpyPath2d.extend(paths)` / `concatenate`: sequential paths are joined directly when the end point is `isclose`
+    to the next start point, else by a `MOVE_TO`; paths without commands are skipped -/
+def npExtendGo {V : Type} (close : V → V → Bool) : V → List V → List Nat → List (NpPath V) → NpPath V
+  | _, vs, cs, [] => ⟨vs, cs⟩
+  | fin, vs, cs, q :: r =>
+    match q.commands, q.vertices with
+    | [], _ => npExtendGo close fin vs cs r
+    | _, [] => npExtendGo close fin vs cs r   -- not reachable: a path with commands has vertices
+    | _, q0 :: qrest =>
+      let qfin := (q.vertices.getLast?).getD q0
+      if close fin q0 then npExtendGo close qfin (vs ++ qrest) (cs ++ q.commands) r
+      else npExtendGo close qfin (vs ++ q.vertices) (cs ++ 4 :: q.commands) r
+
+def npExtend {V : Type} (close : V → V → Bool) (self : NpPath V) (paths : List (NpPath V)) : NpPath V :=
+  match paths with
+  | [] => self
+  | p0 :: rest =>
+    let first := match self.commands with | [] => p0 | _ => self
+    let others := match self.commands with | [] => rest | _ => paths
+    match first.vertices with
+    | [] => first   -- `first.end` of an empty array: IndexError, not reachable through the constructor
+    | f0 :: _ => npExtendGo close ((first.vertices.getLast?).getD f0) first.vertices first.commands others
 
 end EzdxfVerif.FlattenPath
